@@ -68,6 +68,9 @@ def run(tier, seed):
     # the step function alone, under every delivery order and every legal GVT announcement
     preps, pm, pviol = hc.proc_part(PID, d, tier, part="small")
     viol += pviol
+    # interleavings inside calls at plain accesses to shared static storage
+    rreps, rm, rviol = hc.race_part(PID, d, tier, [("m0", CORE_MODELS[0], 2, 2), ("m1", CORE_MODELS[1], 3, 1), ("m4", CORE_MODELS[4], 2, 3)])
+    viol += rviol
     if not viol:
         for k in ("rollbacks", "anti_messages", "silent_executions", "end_state_compared", "ended_by_predicate", "fossil_releases"):
             if hc.counters_nz(m, k) == 0:
@@ -82,6 +85,9 @@ def run(tier, seed):
                            "sequential, state after every rollback = recorded forward state; non-trivial = execution with >= 1 rollback; "
                            "states = distinct choice-tree nodes, transitions = scheduling steps")
     hc.add_proc(cov, pm, preps)
+    cov["race_build"] = {"executions": rm["executions"], "scenarios": vc.scenario_table(rreps), "max_choice_points": rm["max_points"]}
+    cov["evaluations"] += rm["executions"]
+    cov["rule"] += ". " + hc.RACE_RULE
     vc.write_evidence(PID, tier, "model_checking", cov,
                       [hc.PROC_ASSUMPTION, "interleavings at call granularity (process_msg / mpi_remote_msg_handle / gvt_phase_run boundaries); in-call "
                        "interleavings are covered by the fine-grained harnesses of C04, C06, C15, C17",
@@ -94,4 +100,4 @@ def replay(path):
     d = vc.fresh_dir(PID + "_replay")
     if hc.is_proc_replay(path):
         return vc.rsched_replay(hc.build_proc(d), path)
-    return vc.rsched_replay(hc.build(d), path)
+    return vc.rsched_replay(hc.build(d, race=hc.is_race_replay(path)), path)
